@@ -83,5 +83,5 @@ SubstrOK == (Live /\ R.kind = "substr") =>
 \* and nothing else
 NoStray == Live => \A j \in 1..Len(R.samples) : R.samples[j].letter \in Letters
 \* the run is one the alphabet knows
-Known == Live => \A x \in Letters : x \in LettersOf(R.gun)
+Known == Live => (R.avariant \in AmmoVariants /\ \A x \in Letters : x \in LettersOf(R.gun))
 =============================================================================
